@@ -562,3 +562,497 @@ Section Partition.
     - cbn [run_yielder]. rewrite zip_many_stream, (Hgen 0 o _ _ Hok Ha). exact Hraw.
   Qed.
 End Partition.
+
+(** ** E. the TSV reader *)
+
+Lemma res_app_nil_l y : res_app res_nil y = y.
+Proof. destruct y; reflexivity. Qed.
+
+Lemma res_app_assoc x y z : res_app (res_app x y) z = res_app x (res_app y z).
+Proof. unfold res_app. cbn. rewrite app_assoc, !Nat.add_assoc. reflexivity. Qed.
+
+Lemma rd_app_nil_l b : rd_app (inl res_nil) b = b.
+Proof. destruct b as [y|e]; cbn; [rewrite res_app_nil_l|]; reflexivity. Qed.
+
+Lemma rd_app_assoc a b c : rd_app (rd_app a b) c = rd_app a (rd_app b c).
+Proof. destruct a, b, c; cbn; try reflexivity. rewrite res_app_assoc. reflexivity. Qed.
+
+Lemma tsv_sep_is_TAB : c08_tsv_sep = [TAB].
+Proof. reflexivity. Qed.
+
+Theorem read_tsv_compositional pyfloat : line_compositional (read_tsv pyfloat).
+Proof.
+  constructor.
+  - intros a b. induction a as [|l a IH]; cbn [app read_tsv].
+    + rewrite rd_app_nil_l. reflexivity.
+    + rewrite IH, rd_app_assoc. reflexivity.
+  - intros l l' H. cbn [read_tsv]. unfold tsv_line. rewrite H. reflexivity.
+  - intros l H. exists 1. cbn [read_tsv]. unfold tsv_line. rewrite H. reflexivity.
+Qed.
+
+(** *** strings *)
+
+Lemma no_char_not_in c s : no_char c s = true -> ~ In c s.
+Proof.
+  unfold no_char. rewrite forallb_forall. intros H Hin. specialize (H _ Hin).
+  rewrite Ascii.eqb_refl in H. discriminate.
+Qed.
+
+Lemma no_space_not_in c s : is_space c = true -> no_space s = true -> ~ In c s.
+Proof.
+  unfold no_space. rewrite forallb_forall. intros Hc H Hin. specialize (H _ Hin). rewrite Hc in H. discriminate.
+Qed.
+
+Lemma find_nat_char c a b : ~ In c a -> find_nat [c] (a ++ c :: b) = Some (List.length a).
+Proof.
+  induction a as [|x a IH]; intros H; cbn.
+  - rewrite Ascii.eqb_refl. reflexivity.
+  - assert (Ascii.eqb c x = false) as -> by (apply Ascii.eqb_neq; intros E; apply H; left; auto).
+    cbn. rewrite IH by (intros E; apply H; right; auto). reflexivity.
+Qed.
+
+Lemma find_nat_head_absent c r s : ~ In c s -> find_nat (c :: r) s = None.
+Proof.
+  induction s as [|x s IH]; intros H; [reflexivity|]. cbn.
+  assert (Ascii.eqb c x = false) as -> by (apply Ascii.eqb_neq; intros E; apply H; left; auto).
+  cbn. rewrite IH by (intros E; apply H; right; auto). reflexivity.
+Qed.
+
+Lemma find_nat_head_skip c r a rest :
+  ~ In c a -> find_nat (c :: r) (a ++ rest) = match find_nat (c :: r) rest with Some n => Some (List.length a + n) | None => None end.
+Proof.
+  induction a as [|x a IH]; intros H; cbn [app].
+  - destruct (find_nat (c :: r) rest); reflexivity.
+  - cbn [find_nat prefixb].
+    assert (Ascii.eqb c x = false) as -> by (apply Ascii.eqb_neq; intros E; apply H; left; auto).
+    cbn [andb]. rewrite IH by (intros E; apply H; right; auto).
+    destruct (find_nat (c :: r) rest); reflexivity.
+Qed.
+
+Lemma rfind_aux_absent c b i best : ~ In c b -> rfind_nat_aux [c] b i best = best.
+Proof.
+  revert i best. induction b as [|x b IH]; intros i best H; [reflexivity|]. cbn.
+  assert (Ascii.eqb c x = false) as -> by (apply Ascii.eqb_neq; intros E; apply H; left; auto).
+  cbn. apply IH. intros E; apply H; right; auto.
+Qed.
+
+Lemma rfind_aux_last c a b i best :
+  ~ In c b -> rfind_nat_aux [c] (a ++ c :: b) i best = Some (i + List.length a).
+Proof.
+  revert i best. induction a as [|x a IH]; intros i best H.
+  - cbn. rewrite Ascii.eqb_refl. cbn. rewrite rfind_aux_absent by exact H. f_equal. lia.
+  - cbn [app rfind_nat_aux]. rewrite IH by exact H. cbn [List.length]. f_equal. lia.
+Qed.
+
+Lemma rfind_last c a b : ~ In c b -> rfind [c] (a ++ c :: b) = Z.of_nat (List.length a).
+Proof. intros H. unfold rfind, rfind_nat. rewrite rfind_aux_last by exact H. reflexivity. Qed.
+
+Lemma rfind_absent c s : ~ In c s -> rfind [c] s = (-1)%Z.
+Proof. intros H. unfold rfind, rfind_nat. rewrite rfind_aux_absent by exact H. reflexivity. Qed.
+
+Lemma last_occurrence (c : ascii) l : In c l -> exists a b, l = a ++ c :: b /\ ~ In c b.
+Proof.
+  induction l as [|x l IH]; intros H; [destruct H|].
+  destruct (in_dec ascii_dec c l) as [Hin|Hnin].
+  - destruct (IH Hin) as (a & b & -> & Hb). exists (x :: a), b. split; [reflexivity | exact Hb].
+  - destruct H as [->|H]; [|contradiction]. exists [], l. split; [reflexivity | exact Hnin].
+Qed.
+
+(** the language test: the last at-sign against the last double quote *)
+Definition AT : ascii := ascii_of_nat 64.
+
+Lemma lang_marker_is_AT : c_lang_marker = [AT].
+Proof. reflexivity. Qed.
+
+Lemma arroba_false pre post :
+  ~ In Q post -> ~ In AT post -> there_is_arroba_after_last_quotes (pre ++ Q :: post) = false.
+Proof.
+  intros HQ HA. unfold there_is_arroba_after_last_quotes. rewrite lang_marker_is_AT.
+  change (Str """") with [Q]. rewrite (rfind_last Q pre post HQ).
+  destruct (in_dec ascii_dec AT pre) as [Hin|Hnin].
+  - destruct (last_occurrence AT pre Hin) as (a & b & -> & Hb).
+    rewrite <- app_assoc. cbn [app].
+    rewrite rfind_last.
+    + rewrite Z.gtb_ltb. apply Z.ltb_ge. rewrite app_length. cbn [List.length]. lia.
+    + intros H. apply in_app_or in H. destruct H as [H|[H|H]]; [auto | discriminate H | auto].
+  - rewrite rfind_absent.
+    + rewrite Z.gtb_ltb. apply Z.ltb_ge. lia.
+    + intros H. apply in_app_or in H. destruct H as [H|[H|H]]; [auto | discriminate H | auto].
+Qed.
+
+Lemma arroba_true pre tag :
+  ~ In Q tag -> there_is_arroba_after_last_quotes (pre ++ Q :: AT :: tag) = true.
+Proof.
+  intros HQ. unfold there_is_arroba_after_last_quotes. rewrite lang_marker_is_AT.
+  change (Str """") with [Q].
+  rewrite (rfind_last Q pre (AT :: tag)) by (intros [H|H]; [discriminate H | auto]).
+  destruct (last_occurrence AT (AT :: tag) (or_introl eq_refl)) as (a & b & E & Hb).
+  replace (pre ++ Q :: AT :: tag) with ((pre ++ Q :: a) ++ AT :: b) by (rewrite <- app_assoc; cbn [app]; rewrite <- E; reflexivity).
+  rewrite rfind_last by exact Hb. rewrite app_length. cbn [List.length].
+  apply Z.gtb_lt. lia.
+Qed.
+
+(** the three characters quote-caret-caret *)
+Definition HAT : ascii := ascii_of_nat 94.
+
+Lemma QHH_chars : QHH = [Q; HAT; HAT].
+Proof. reflexivity. Qed.
+
+Lemma hats_not_prefix lex rest :
+  prefixb [HAT; HAT] lex = false -> prefixb [HAT; HAT] (lex ++ Q :: rest) = false.
+Proof.
+  destruct lex as [|a [|b l]]; intros H; cbn [app prefixb] in *.
+  - reflexivity.
+  - destruct (Ascii.eqb HAT a); reflexivity.
+  - exact H.
+Qed.
+
+Lemma find_nat_cons p x s :
+  find_nat p (x :: s) = if prefixb p (x :: s) then Some 0
+                        else match find_nat p s with Some n => Some (S n) | None => None end.
+Proof. reflexivity. Qed.
+
+Lemma prefixb_cons x p y s : prefixb (x :: p) (y :: s) = Ascii.eqb x y && prefixb p s.
+Proof. reflexivity. Qed.
+
+Lemma find_QHH_plain lex :
+  ~ In Q lex -> prefixb [HAT; HAT] lex = false -> find_nat QHH (Q :: lex ++ [Q]) = None.
+Proof.
+  intros HQ HH. rewrite QHH_chars, find_nat_cons, prefixb_cons, Ascii.eqb_refl, (hats_not_prefix lex [] HH).
+  cbn [andb]. rewrite (find_nat_head_skip Q [HAT; HAT] lex [Q] HQ). reflexivity.
+Qed.
+
+Lemma find_QHH_typed lex rest :
+  ~ In Q lex -> prefixb [HAT; HAT] lex = false ->
+  find_nat QHH (Q :: lex ++ Q :: HAT :: HAT :: rest) = Some (S (List.length lex)).
+Proof.
+  intros HQ HH. rewrite QHH_chars, find_nat_cons, prefixb_cons, Ascii.eqb_refl, (hats_not_prefix lex _ HH).
+  cbn [andb]. rewrite (find_nat_head_skip Q [HAT; HAT] lex _ HQ).
+  rewrite find_nat_cons, !prefixb_cons, !Ascii.eqb_refl. cbn [andb prefixb]. f_equal. lia.
+Qed.
+
+(** slices *)
+Lemma slice_nat s (a b : nat) :
+  (a <= b)%nat -> (b <= List.length s)%nat -> slice s (Z.of_nat a) (Z.of_nat b) = firstn (b - a) (skipn a s).
+Proof.
+  intros H1 H2. unfold slice, norm_idx, len.
+  destruct (Z.ltb_spec (Z.of_nat a) 0); [lia|]. destruct (Z.ltb_spec (Z.of_nat b) 0); [lia|].
+  replace (Z.to_nat (Z.min (Z.of_nat b) (Z.of_nat (List.length s)) - Z.min (Z.of_nat a) (Z.of_nat (List.length s)))) with (b - a)%nat by lia.
+  replace (Z.to_nat (Z.min (Z.of_nat a) (Z.of_nat (List.length s)))) with a by lia. reflexivity.
+Qed.
+
+Lemma slice_nat_m1 s (a : nat) :
+  (S a <= List.length s)%nat -> slice s (Z.of_nat a) (-1) = firstn (List.length s - 1 - a) (skipn a s).
+Proof.
+  intros H. unfold slice, norm_idx, len.
+  destruct (Z.ltb_spec (Z.of_nat a) 0); [lia|]. destruct (Z.ltb_spec (-1) 0); [|lia].
+  replace (Z.to_nat (Z.max 0 (Z.of_nat (List.length s) + -1) - Z.min (Z.of_nat a) (Z.of_nat (List.length s)))) with (List.length s - 1 - a)%nat by lia.
+  replace (Z.to_nat (Z.min (Z.of_nat a) (Z.of_nat (List.length s)))) with a by lia. reflexivity.
+Qed.
+
+Lemma skipn_app_exact {A} (a b : list A) : skipn (List.length a) (a ++ b) = b.
+Proof. induction a; cbn; auto. Qed.
+
+Lemma firstn_app_exact {A} (a b : list A) : firstn (List.length a) (a ++ b) = a.
+Proof. induction a; cbn; [destruct b|]; f_equal; auto. Qed.
+
+Lemma slice_middle a m (c : ascii) : slice (a ++ m ++ [c]) (Z.of_nat (List.length a)) (-1) = m.
+Proof.
+  rewrite slice_nat_m1 by (rewrite !app_length; cbn; lia).
+  rewrite skipn_app_exact. rewrite !app_length. cbn [List.length].
+  replace (List.length a + (List.length m + 1) - 1 - List.length a)%nat with (List.length m) by lia.
+  apply firstn_app_exact.
+Qed.
+
+Lemma slice_corners s : slice (Str "<" ++ s ++ Str ">") 1 (-1) = s.
+Proof. exact (slice_middle (Str "<") s (ascii_of_nat 62)). Qed.
+
+Lemma slice_content (x : ascii) lex rest :
+  slice (x :: lex ++ rest) 1 (Z.of_nat (S (List.length lex))) = lex.
+Proof.
+  change 1%Z with (Z.of_nat 1). rewrite slice_nat by (cbn; rewrite ?app_length; lia).
+  cbn [skipn]. replace (S (List.length lex) - 1)%nat with (List.length lex) by lia. apply firstn_app_exact.
+Qed.
+
+Lemma suffixb_snoc (c : ascii) s : suffixb [c] (s ++ [c]) = true.
+Proof. unfold suffixb. rewrite rev_unit. cbn. rewrite Ascii.eqb_refl. reflexivity. Qed.
+
+Lemma strip_ends s x y :
+  hd_error s = Some x -> hd_error (rev s) = Some y -> is_space x = false -> is_space y = false -> strip s = s.
+Proof.
+  intros Hx Hy Sx Sy. unfold strip. destruct s as [|x' s]; [discriminate|]. inversion Hx; subst x'.
+  rewrite lstrip_head by exact Sx. unfold rstrip.
+  destruct (rev (x :: s)) as [|y' r] eqn:E; [discriminate|]. inversion Hy; subst y'.
+  rewrite lstrip_head by exact Sy. rewrite <- E. apply rev_involutive.
+Qed.
+
+Lemma hd_rev_app (a c : str) : c <> [] -> hd_error (rev (a ++ c)) = hd_error (rev c).
+Proof.
+  intros H. rewrite rev_app_distr. destruct (rev c) eqn:E; [|reflexivity].
+  apply (f_equal (@rev ascii)) in E. rewrite rev_involutive in E. contradiction.
+Qed.
+
+Lemma last_nonspace (p l : str) y0 :
+  hd_error (rev p) = Some y0 -> is_space y0 = false -> no_space l = true ->
+  exists y, hd_error (rev (p ++ l)) = Some y /\ is_space y = false.
+Proof.
+  intros Hp Sy Hl. rewrite rev_app_distr. destruct (rev l) as [|z r] eqn:E.
+  - exists y0. split; assumption.
+  - exists z. split; [reflexivity|]. unfold no_space in Hl. rewrite forallb_forall in Hl.
+    assert (In z l) as Hin by (apply in_rev; rewrite E; left; reflexivity).
+    specialize (Hl _ Hin). apply negb_true_iff in Hl. exact Hl.
+Qed.
+
+(** *** tokens *)
+
+Definition mnode (n : anode) : mterm :=
+  match n with AIri s => MIri s | ABn l => MBn (Str "_:" ++ l) end.
+
+Definition mobj (o : aobj) : mterm :=
+  match o with AN n => mnode n | ALit lex k => MLit lex (dt_of k) end.
+
+Lemma remove_corners_iri s : remove_corners (Str "<" ++ s ++ Str ">") = inl s.
+Proof.
+  unfold remove_corners.
+  assert (suffixb (Str ">") (Str "<" ++ s ++ Str ">") = true) as ->
+      by (rewrite app_assoc; apply suffixb_snoc).
+  cbn [Str list_ascii_of_string app prefixb]. rewrite Ascii.eqb_refl. cbn [andb].
+  rewrite <- (slice_corners s) at 2. reflexivity.
+Qed.
+
+Section TokenLemmas.
+  Variable pyfloat : str -> option bool.
+
+  Lemma tune_token_node b n : tune_token pyfloat b (r_node n) = inl (mnode n).
+  Proof.
+    destruct n as [s|l]; unfold tune_token.
+    - cbn [r_node]. assert (prefixb (Str "<") (Str "<" ++ s ++ Str ">") = true) as -> by reflexivity.
+      rewrite remove_corners_iri. reflexivity.
+    - reflexivity.
+  Qed.
+
+  Lemma tune_prop_iri p : tune_prop (Str "<" ++ p ++ Str ">") = inl p.
+  Proof. apply remove_corners_iri. Qed.
+
+  Lemma not_in_Q_of lex : lex_ok lex = true -> ~ In Q lex.
+  Proof. unfold lex_ok. rewrite !andb_true_iff. intros [[[_ _] H] _]. apply no_char_not_in. exact H. Qed.
+
+  Lemma hats_of lex : lex_ok lex = true -> prefixb [HAT; HAT] lex = false.
+  Proof. unfold lex_ok. rewrite !andb_true_iff. intros [_ H]. apply negb_true_iff in H. exact H. Qed.
+
+  Lemma content_of lex suf :
+    ~ In Q lex -> slice (Q :: lex ++ Q :: suf) 1 (find_from1 (Str """") (Q :: lex ++ Q :: suf)) = lex.
+  Proof.
+    intros HQ. unfold find_from1. change (Str """") with [Q]. rewrite (find_nat_char Q lex suf HQ).
+    apply slice_content.
+  Qed.
+
+  Lemma parse_plain lex : lex_ok lex = true -> parse_literal (Q :: lex ++ [Q]) = inl (MLit lex xsd_string).
+  Proof.
+    intros H. pose proof (not_in_Q_of lex H) as HQ. unfold parse_literal, decide_literal_type.
+    change (Q :: lex ++ [Q]) with ((Q :: lex) ++ Q :: []) at 1.
+    rewrite arroba_false by (intros []).
+    unfold contains. cbn [app]. rewrite (find_QHH_plain lex HQ (hats_of lex H)). cbn [negb].
+    rewrite (content_of lex [] HQ). reflexivity.
+  Qed.
+
+  Lemma parse_lang lex tag :
+    lex_ok lex = true -> no_char Q tag = true ->
+    parse_literal (Q :: lex ++ Q :: Str "@" ++ tag) = inl (MLit lex rdf_langString).
+  Proof.
+    intros H Ht. pose proof (not_in_Q_of lex H) as HQ. unfold parse_literal, decide_literal_type.
+    change (Q :: lex ++ Q :: Str "@" ++ tag) with ((Q :: lex) ++ Q :: AT :: tag) at 1.
+    rewrite arroba_true by (apply no_char_not_in; exact Ht).
+    change (Str "@" ++ tag) with (AT :: tag). rewrite (content_of lex (AT :: tag) HQ). reflexivity.
+  Qed.
+
+  Lemma typed_token_shape lex dt :
+    Q :: lex ++ Q :: Str "^^<" ++ dt ++ Str ">"
+    = (Q :: lex ++ [Q; HAT; HAT; ascii_of_nat 60]) ++ dt ++ [ascii_of_nat 62].
+  Proof. cbn [app]. rewrite <- app_assoc. reflexivity. Qed.
+
+  Lemma parse_typed lex dt :
+    lex_ok lex = true -> dt_ok lex dt = true ->
+    parse_literal (Q :: lex ++ Q :: Str "^^<" ++ dt ++ Str ">") = inl (MLit lex dt).
+  Proof.
+    intros H Hd. pose proof (not_in_Q_of lex H) as HQ.
+    unfold dt_ok in Hd. rewrite !andb_true_iff in Hd.
+    destruct Hd as [[[Hsp HdQ] HdA] [[[Hx Hr] Hdt] Hg]].
+    cbn [r_obj] in Hx, Hr, Hdt, Hg. apply negb_true_iff in Hx, Hr, Hdt, Hg.
+    set (tok := Q :: lex ++ Q :: Str "^^<" ++ dt ++ Str ">") in *.
+    assert (Harr : there_is_arroba_after_last_quotes tok = false).
+    { unfold tok. change (Q :: lex ++ Q :: Str "^^<" ++ dt ++ Str ">") with ((Q :: lex) ++ Q :: (Str "^^<" ++ dt ++ Str ">")).
+      apply arroba_false.
+      - intros Hin. cbn [Str list_ascii_of_string app] in Hin.
+        destruct Hin as [E|[E|[E|Hin]]]; try discriminate E.
+        apply in_app_or in Hin. destruct Hin as [Hin|[E|[]]]; [|discriminate E].
+        revert Hin. apply no_char_not_in. exact HdQ.
+      - intros Hin. cbn [Str list_ascii_of_string app] in Hin.
+        destruct Hin as [E|[E|[E|Hin]]]; try discriminate E.
+        apply in_app_or in Hin. destruct Hin as [Hin|[E|[]]]; [|discriminate E].
+        revert Hin. apply no_char_not_in. exact HdA. }
+    assert (Hfind : find_nat QHH tok = Some (S (List.length lex))).
+    { unfold tok. cbn [Str list_ascii_of_string app]. apply find_QHH_typed; [exact HQ | apply hats_of; exact H]. }
+    assert (Hslice : slice tok (find QHH tok + 4) (-1) = dt).
+    { unfold find. rewrite Hfind. unfold tok. rewrite typed_token_shape.
+      replace (Z.of_nat (S (List.length lex)) + 4)%Z with (Z.of_nat (List.length (Q :: lex ++ [Q; HAT; HAT; ascii_of_nat 60])))
+        by (cbn [List.length]; rewrite app_length; cbn [List.length]; lia).
+      apply slice_middle. }
+    assert (Hstrip : suffixb (Str ">") (strip tok) = true).
+    { assert (strip tok = tok) as ->.
+      { apply (strip_ends tok Q (ascii_of_nat 62)); [reflexivity | | reflexivity | reflexivity].
+        unfold tok. rewrite typed_token_shape, app_assoc, rev_unit. reflexivity. }
+      unfold tok. rewrite typed_token_shape, app_assoc. apply suffixb_snoc. }
+    unfold parse_literal, decide_literal_type. rewrite Harr.
+    unfold contains at 1. rewrite Hfind. cbn [negb]. rewrite Hx, Hr, Hdt, Hg, Hslice, Hstrip.
+    assert (Hc : slice tok 1 (find_from1 (Str """") tok) = lex) by (unfold tok; apply content_of; exact HQ).
+    rewrite Hc.
+    destruct (contains c_XSD_NAMESPACE tok || contains c_RDF_SYNTAX_NAMESPACE tok
+              || contains c_DT_NAMESPACE tok || contains c_OPENGIS_NAMESPACE tok); reflexivity.
+  Qed.
+
+  Lemma tune_token_obj o : obj_ok o = true -> tune_token pyfloat c08_tsv_object_untyped_numbers (r_obj o) = inl (mobj o).
+  Proof.
+    destruct o as [n|lex k]; intros H.
+    - apply tune_token_node.
+    - assert (forall suf, tune_token pyfloat c08_tsv_object_untyped_numbers (Q :: suf) = parse_literal (Q :: suf)) as E
+          by reflexivity.
+      destruct k as [|dt|tag]; cbn [r_obj obj_ok mobj dt_of] in *.
+      + rewrite E. apply parse_plain. exact H.
+      + apply andb_true_iff in H. destruct H as [H1 H2]. rewrite E. apply parse_typed; assumption.
+      + rewrite !andb_true_iff in H. destruct H as [[H1 _] H3]. rewrite E. apply parse_lang; assumption.
+  Qed.
+End TokenLemmas.
+
+(** *** one TSV line, a TSV document *)
+
+Lemma not_in_cons (c x : ascii) l : c <> x -> ~ In c l -> ~ In c (x :: l).
+Proof. intros H1 H2 [E|H]; [apply H1; auto | auto]. Qed.
+
+Lemma not_in_app (c : ascii) a b : ~ In c a -> ~ In c b -> ~ In c (a ++ b).
+Proof. intros H1 H2 H. apply in_app_or in H. tauto. Qed.
+
+Lemma TAB_is_space : is_space TAB = true.
+Proof. reflexivity. Qed.
+
+Lemma tab_not_in_iri p : iri_ok p = true -> ~ In TAB (Str "<" ++ p ++ Str ">").
+Proof.
+  intros H. apply not_in_cons; [discriminate|]. apply not_in_app.
+  - apply no_space_not_in; [reflexivity | exact H].
+  - apply not_in_cons; [discriminate | intros []].
+Qed.
+
+Lemma tab_not_in_node n : node_ok n = true -> ~ In TAB (r_node n).
+Proof.
+  destruct n as [s|l]; cbn [node_ok r_node]; intros H.
+  - apply tab_not_in_iri. exact H.
+  - apply not_in_cons; [discriminate|]. apply not_in_cons; [discriminate|].
+    apply no_space_not_in; [reflexivity | exact H].
+Qed.
+
+Lemma tab_not_in_lex lex : lex_ok lex = true -> ~ In TAB lex.
+Proof. unfold lex_ok. rewrite !andb_true_iff. intros [[[H _] _] _]. apply no_char_not_in. exact H. Qed.
+
+Lemma tab_not_in_obj o : obj_ok o = true -> ~ In TAB (r_obj o).
+Proof.
+  destruct o as [n|lex [|dt|tag]]; cbn [obj_ok r_obj]; intros H.
+  - apply tab_not_in_node. exact H.
+  - apply not_in_cons; [discriminate|]. apply not_in_app; [apply tab_not_in_lex; exact H|].
+    apply not_in_cons; [discriminate | intros []].
+  - apply andb_true_iff in H. destruct H as [H1 H2]. unfold dt_ok in H2. rewrite !andb_true_iff in H2.
+    destruct H2 as [[[Hsp _] _] _].
+    apply not_in_cons; [discriminate|]. apply not_in_app; [apply tab_not_in_lex; exact H1|].
+    repeat (apply not_in_cons; [discriminate|]). apply not_in_app.
+    + apply no_space_not_in; [reflexivity | exact Hsp].
+    + apply not_in_cons; [discriminate | intros []].
+  - rewrite !andb_true_iff in H. destruct H as [[H1 H2] _].
+    apply not_in_cons; [discriminate|]. apply not_in_app; [apply tab_not_in_lex; exact H1|].
+    repeat (apply not_in_cons; [discriminate|]). apply no_space_not_in; [reflexivity | exact H2].
+Qed.
+
+Lemma hd_rev_last (s : str) c : hd_error (rev (s ++ [c])) = Some c.
+Proof. rewrite rev_unit. reflexivity. Qed.
+
+Lemma obj_last pre o :
+  obj_ok o = true -> exists y, hd_error (rev (pre ++ r_obj o)) = Some y /\ is_space y = false.
+Proof.
+  destruct o as [[s|l]|lex [|dt|tag]]; cbn [obj_ok node_ok r_obj r_node]; intros H.
+  - exists (ascii_of_nat 62).
+    change (Str "<" ++ s ++ Str ">") with ((Str "<" ++ s) ++ [ascii_of_nat 62]).
+    rewrite app_assoc, hd_rev_last. split; reflexivity.
+  - rewrite app_assoc. apply (last_nonspace _ l (ascii_of_nat 58)); [|reflexivity | exact H].
+    change (Str "_:") with ([ascii_of_nat 95] ++ [ascii_of_nat 58]). rewrite app_assoc. apply hd_rev_last.
+  - exists Q. change (Q :: lex ++ [Q]) with ((Q :: lex) ++ [Q]). rewrite app_assoc, hd_rev_last. split; reflexivity.
+  - exists (ascii_of_nat 62). rewrite typed_token_shape, !app_assoc, hd_rev_last. split; reflexivity.
+  - rewrite !andb_true_iff in H. destruct H as [[_ H2] _].
+    change (Q :: lex ++ Q :: Str "@" ++ tag) with ((Q :: lex) ++ [Q; AT] ++ tag).
+    rewrite !app_assoc.
+    apply (last_nonspace _ tag AT); [|reflexivity | exact H2].
+    change [Q; AT] with ([Q] ++ [AT]). rewrite !app_assoc. apply hd_rev_last.
+Qed.
+
+Section TsvTheorem.
+  Variable pyfloat : str -> option bool.
+
+  Definition m_of (t : atriple) : mtriple := MT (mnode (a_s t)) (a_p t) (mobj (a_o t)).
+
+  Lemma triple_ok_parts t :
+    triple_ok t = true -> node_ok (a_s t) = true /\ iri_ok (a_p t) = true /\ obj_ok (a_o t) = true.
+  Proof. unfold triple_ok. rewrite !andb_true_iff. tauto. Qed.
+
+  Lemma strip_tsv_line t : triple_ok t = true -> strip (tsv_line_of t) = tsv_line_of t.
+  Proof.
+    intros H. destruct (triple_ok_parts t H) as (Hs & Hp & Ho). unfold tsv_line_of.
+    destruct (obj_last (r_node (a_s t) ++ TAB :: (Str "<" ++ a_p t ++ Str ">") ++ [TAB]) (a_o t) Ho) as (y & Hy & Sy).
+    assert (E : r_node (a_s t) ++ TAB :: (Str "<" ++ a_p t ++ Str ">") ++ TAB :: r_obj (a_o t)
+                = (r_node (a_s t) ++ TAB :: (Str "<" ++ a_p t ++ Str ">") ++ [TAB]) ++ r_obj (a_o t)).
+    { rewrite <- !app_assoc. cbn [app]. rewrite <- !app_assoc. reflexivity. }
+    rewrite E in *.
+    destruct (a_s t) as [s|l].
+    - apply (strip_ends _ (ascii_of_nat 60) y); [reflexivity | exact Hy | reflexivity | exact Sy].
+    - apply (strip_ends _ (ascii_of_nat 95) y); [reflexivity | exact Hy | reflexivity | exact Sy].
+  Qed.
+
+  Lemma split_tsv_line t :
+    triple_ok t = true ->
+    split c08_tsv_sep (tsv_line_of t) = [r_node (a_s t); Str "<" ++ a_p t ++ Str ">"; r_obj (a_o t)].
+  Proof.
+    intros H. destruct (triple_ok_parts t H) as (Hs & Hp & Ho).
+    rewrite tsv_sep_is_TAB, split_split1. unfold tsv_line_of.
+    rewrite (split1_line TAB _ _ [] (tab_not_in_node _ Hs)).
+    rewrite (split1_line TAB _ _ [] (tab_not_in_iri _ Hp)).
+    rewrite (split1_last TAB _ [] (tab_not_in_obj _ Ho)). reflexivity.
+  Qed.
+
+  Lemma tsv_line_ok t : triple_ok t = true -> tsv_line pyfloat (tsv_line_of t) = inl (Some (m_of t)).
+  Proof.
+    intros H. destruct (triple_ok_parts t H) as (Hs & Hp & Ho).
+    unfold tsv_line. rewrite (strip_tsv_line t H), (split_tsv_line t H).
+    rewrite tune_token_node, tune_prop_iri, (tune_token_obj pyfloat _ Ho). reflexivity.
+  Qed.
+
+  Lemma triple_of_m_of t : triple_of_m (m_of t) = Some (T (knode (a_s t)) (a_p t) (kobj (a_o t))).
+  Proof. destruct t as [[s|l] p [[s'|l']|lex k]]; reflexivity. Qed.
+
+  (** *** C08(d): the TSV reader gives the TSV rendering its N-Triples semantics *)
+  Theorem tsv_reads_nt_semantics g :
+    tsv_dom g = true ->
+    read_tsv pyfloat (map tsv_line_of g) = inl (Res (map m_of g) (List.length g) 0)
+    /\ graph_of_m (map m_of g) = Some (kinded g).
+  Proof.
+    unfold tsv_dom. induction g as [|t g IH]; intros H; [split; reflexivity|].
+    cbn [forallb] in H. apply andb_true_iff in H. destruct H as [Ht Hg]. destruct (IH Hg) as [IH1 IH2]. split.
+    - cbn [map read_tsv]. rewrite (tsv_line_ok t Ht), IH1. reflexivity.
+    - cbn [map graph_of_m kinded]. rewrite triple_of_m_of, IH2. reflexivity.
+  Qed.
+
+  Lemma tsv_lines_nonblank g : tsv_dom g = true -> filter nonblank (map tsv_line_of g) = map tsv_line_of g.
+  Proof.
+    unfold tsv_dom. induction g as [|t g IH]; intros H; [reflexivity|].
+    cbn [forallb] in H. apply andb_true_iff in H. destruct H as [Ht Hg]. cbn [map filter].
+    unfold nonblank at 1. rewrite (strip_tsv_line t Ht).
+    assert (str_eqb (tsv_line_of t) [] = false) as ->
+        by (unfold tsv_line_of; destruct (a_s t); reflexivity).
+    cbn [negb]. rewrite (IH Hg). reflexivity.
+  Qed.
+End TsvTheorem.
